@@ -30,11 +30,13 @@ def run(ctx):
     ctx.rule("R1", "exactly one Tree::edit on every path from Root::do_edit entry to the re-parse (callees inlined)")
     ctx.rule("R2", "accept_edit: start/old_end points before the splice, new_end point after; byte offsets = position, +deleted_length, +inserted len")
     ctx.rule("R3", "single writer: get_source_mut / Root.inner / Root.doc(mut) only in Root::do_edit; StrDoc.src never written after construction")
+    ctx.rule("R5", "the edit description given by the caller reaches do_edit unmodified (no field of an Edit is rewritten on the way)")
     ctx.rule("R4", "re-parse receives Some(&self.inner) (the edited tree) and its result is stored back into self.inner")
 
     do_edit = ctx.anchor("R1", r"^ast_grep_core::node::Root::<D>::do_edit$")
     if do_edit is None:
         return
+    r5(ctx)
     # ---- R1 -------------------------------------------------------------------------------------
     parse_calls = [c for c in do_edit.calls if c.name == "parse" and c.callee.get("trait", "").endswith("::Doc")]
     if len(parse_calls) != 1:
@@ -259,3 +261,43 @@ def _byte_origin(prog, fn, o, depth):
     if o.kind == "const":
         return []
     return None
+
+
+def r5(ctx):
+    """Who hands an Edit to Root::do_edit, directly or through AstGrep::edit: in none of those functions is a field of an Edit value
+    assigned (position/deleted_length/inserted_text are set once, where the Edit is constructed).  'Clamping' an edit into
+    root().range() moves an insertion at offset 0 behind leading whitespace: the text is no longer the spliced text."""
+    prog = ctx.prog
+    de = ctx.anchor("R5", r"^ast_grep_core::node::Root::<D>::do_edit$")
+    if not de:
+        return
+    seen, work, fns = set(), [de.id], []
+    while work:
+        t = work.pop()
+        for c in prog.call_sites.get(t, []):
+            f = c.fn
+            root = prog.fns.get(f.root, f) if f.is_closure else f
+            if root.id in seen or not root.crate.startswith("ast_grep"):
+                continue
+            # only follow callers that pass an Edit on
+            if not any(a[0] != "k" and "source::Edit<" in f.locals[a[1][0]] for a in c.args):
+                continue
+            seen.add(root.id)
+            fns.append(root)
+            work.append(root.id)
+    ctx.floor("R5", "functions handing an Edit towards do_edit", len(fns), 1)
+    for f in sorted(fns, key=lambda f: f.id):
+        stores = []
+        for g in prog.family(f):
+            for bi in g.live_blocks:
+                for st in g.blocks[bi]["s"]:
+                    if st[0] == "A" and any(p.endswith("|ast_grep_core::source::Edit") for p in st[1][1]):
+                        stores.append("%s L%d" % ([p[1:].split("|")[0] for p in st[1][1] if p.startswith(".")][0], st[3]))
+                    # re-building the Edit from the parameter's parts is the same thing
+                    if st[0] == "A" and st[2][0] == "agg" and (st[2][1].get("adt") or "").endswith("ast_grep_core::source::Edit") and \
+                            any("source::Edit<" in g.locals[i] for i in range(1, g.nargs + 1)):
+                        stores.append("new Edit L%d" % st[3])
+        ctx.ob("R5", "%s passes the edit on unmodified" % f.id, not stores,
+               "no field of an Edit is assigned here" if not stores else
+               "fields of the Edit are rewritten before it reaches do_edit (%s): the change applied to the text is not the one the caller described — "
+               "the document no longer equals the caller's splice" % stores, where=f.loc())
